@@ -259,7 +259,10 @@ func c11All(env *core.Env, c *rulesCase) core.Verdict {
 		over[key] = string(g.Stdout)
 	}
 	u := cli(env, root, nil, "regex", "update", "--all")
-	if u.Class() == sut.ClassFault || u.Class() == sut.ClassTimeout {
+	if u.Class() == sut.ClassTimeout {
+		return core.Incon("watchdog hit, not judged: %s", describe(u))
+	}
+	if u.Class() == sut.ClassFault {
 		return core.Viol("update-crash", "update --all crashed: %s", describe(u))
 	}
 	if u.Exit != 0 {
@@ -308,7 +311,10 @@ func c11Check(env *core.Env, cc core.Case) core.Verdict {
 		}
 	}
 	u := cli(env, root, nil, "regex", "update", c.Target)
-	if u.Class() == sut.ClassFault || u.Class() == sut.ClassTimeout {
+	if u.Class() == sut.ClassTimeout {
+		return core.Incon("watchdog hit, not judged: %s", describe(u))
+	}
+	if u.Class() == sut.ClassFault {
 		return core.Viol("update-crash", "update %s crashed: %s\nrules file=%s", c.Target, describe(u), core.Q(orig))
 	}
 	after := sut.Snap(root)
